@@ -10,8 +10,9 @@ RULE = ("online-generated building histories (all ops, all protocols, failing ca
 ASSUMPTIONS = ["slot lists are read from Sequence._schedule (anchored state); fall times come from Pulse.fall_time"]
 TIERS = {"quick": dict(cases=700, shards=8, case_timeout=120, shard_timeout=900),
          "thorough": dict(cases=12000, shards=16, case_timeout=120, shard_timeout=3000)}
-FLOORS = {"quick": {"channel_invariant_evals": 5000, "duration_checks": 3000, "prefix_checks": 5000},
-          "thorough": {"channel_invariant_evals": 80000}}
+FLOORS = {"quick": {"channel_invariant_evals": 5000, "duration_checks": 3000, "prefix_checks": 5000,
+                    "duration_total_fall_set_by_earlier_channel": 50},
+          "thorough": {"channel_invariant_evals": 80000, "duration_total_fall_set_by_earlier_channel": 500}}
 
 
 def run_case(ctx, idx, rng, tier):
